@@ -104,13 +104,14 @@ func near(a, b, tol float64) bool { return math.Abs(a-b) <= tol*math.Max(1, math
 
 // cmpMode selects what the walker demands.
 type cmpMode struct {
-	exact       bool    // M/L/Z/R coordinates must be exactly the rational
-	cubicTol    float64 // 0 = exact cubics, else relative tolerance
-	judge       bool    // spec semantics: arcs are checked against the ellipse
-	closeByLine bool    // shapes: a LineTo back to the sub-path start counts as the closepath
-	arcTol      float64 // relative tolerance of the ellipse equation
-	lineTol     float64 // tolerance of M/L/R when !exact
-	approxHit   *int    // counts coordinates that were equal only within tolerance
+	exact       bool     // M/L/Z/R coordinates must be exactly the rational
+	cubicTol    float64  // 0 = exact cubics, else relative tolerance
+	judge       bool     // spec semantics: arcs are checked against the ellipse
+	closeByLine bool     // shapes: a LineTo back to the sub-path start counts as the closepath
+	arcTol      float64  // relative tolerance of the ellipse equation
+	lineTol     float64  // tolerance of M/L/R when !exact
+	approxHit   *int     // counts coordinates that were equal only within tolerance
+	devMax      *float64 // judge: largest radial deviation seen on accepted arcs
 }
 
 // mismatch describes the first divergence.
@@ -260,8 +261,12 @@ func walk(impl []op, ref []mop, md cmpMode) *mismatch {
 				return &mismatch{ref: j, impl: i, reason: fmt.Sprintf("no cubic of the arc ends at the requested point (%v,%v); got %s", ex, ey, got)}
 			}
 			if md.judge {
-				if why, dev := arcOnEllipse(cur, impl[i:k+1], r.f, md.arcTol); why != "" {
+				why, dev := arcOnEllipse(cur, impl[i:k+1], r.f, md.arcTol)
+				if why != "" {
 					return &mismatch{ref: j, impl: i, reason: why, maxDev: dev}
+				}
+				if md.devMax != nil && dev > *md.devMax {
+					*md.devMax = dev
 				}
 			}
 			for q := i; q <= k; q++ {
